@@ -183,8 +183,89 @@ def run_mode_cases(ctx):
                 ctx.violation("C17:run:fault-lost", "intolerant run() neither raised nor matched the fault-free run", rp)
 
 
+
+def midifile_containment_cases(ctx):
+    """Containment with the MIDI-file device: a note the library accepts but mido rejects (note 200) fails inside the
+    device's note_on; in tolerant mode the other tracks' messages in the written file must be exactly those of the run
+    without the failing track (same notes, same absolute tick times)."""
+    import os
+    import tempfile
+    from .. import common
+    common.ensure_repo_on_path()
+    import isobar as iso
+    import mido
+    from isobar.io.midifile import MidiFileOutputDevice
+    r = ctx.rng
+    for i in range(ctx.scale(40, 800)):
+        tpb = 480
+        n_healthy = r.randint(1, 3)
+        healthy = []
+        for h in range(n_healthy):
+            k = r.randint(2, 6)
+            healthy.append({"note": iso.PSequence([r.randint(40, 90) for _ in range(k)], 1),
+                            "duration": iso.PSequence([r.choice([0.25, 0.5, 0.75, 1.0]) for _ in range(k)], 1),
+                            "gate": r.choice([0.5, 0.9]), "channel": h})
+        bad_at = r.randint(0, 3)
+        bad = {"note": iso.PSequence([60] * bad_at + [200, 61, 62], 1),
+               "duration": iso.PSequence([r.choice([0.35, 0.6, 1.1]) for _ in range(bad_at + 3)], 1),
+               "gate": r.choice([0.3, 0.5, 1.0]),       # gate < 1: the failing note-on is due when time has passed since the last message
+               "channel": 9}
+        pos = r.randint(0, n_healthy)
+
+        def write(with_bad):
+            fd, path = tempfile.mkstemp(suffix=".mid")
+            os.close(fd)
+            try:
+                dev = MidiFileOutputDevice(path)
+                tl = iso.Timeline(120, output_device=dev, clock_source=iso.DummyClock(ticks_per_beat=tpb), ignore_exceptions=True)
+                specs = [dict((k_, v.copy() if hasattr(v, "copy") and not isinstance(v, (int, float)) else v) for k_, v in h.items()) for h in healthy]
+                if with_bad:
+                    specs.insert(pos, dict((k_, v.copy() if hasattr(v, "copy") and not isinstance(v, (int, float)) else v) for k_, v in bad.items()))
+                for sp in specs:
+                    tl.schedule(sp)
+                tl.stop_when_done = True
+                err = None
+                try:
+                    with sched_impl.quiet():
+                        for _ in range(20000):
+                            tl.tick()
+                except StopIteration:
+                    pass
+                except Exception as ex:
+                    err = type(ex).__name__
+                dev.write()
+                msgs = []
+                t = 0
+                for m in mido.MidiFile(path).tracks[0]:
+                    t += m.time
+                    if m.type in ("note_on", "note_off") and m.channel != 9 and not (m.type == "note_off" and m.note == 0 and m.channel == 0 and False):
+                        msgs.append((t, m.type, m.note, m.channel))
+                return msgs, err
+            finally:
+                try:
+                    os.unlink(path)
+                except OSError:
+                    pass
+        full, err = write(True)
+        ref, _ = write(False)
+        # the writer closes the file with a dummy note-off that marks its length: compare the real notes only
+        strip = lambda ms: [m for m in ms if not (m[1] == "note_off" and m[2] == 0)]
+        ctx.case(("midifile-containment", i, bad_at, pos, n_healthy), nontrivial=True, validated=False,
+                 sample={"midifile_containment": {"healthy_tracks": n_healthy, "failing_event_index": bad_at, "position": pos}} if i < 2 else None)
+        ctx.count("midifile-containment:bad_at=%d" % bad_at)
+        rp = {"suite": "midifile-containment", "healthy": n_healthy, "failing_event_index": bad_at, "position": pos}
+        if err:
+            ctx.violation("C17:midifile:exception-escaped-tolerant-timeline", "tick() raised %s with a MIDI-file device in tolerant mode" % err, rp)
+        elif strip(full) != strip(ref):
+            a, b = strip(full), strip(ref)
+            k = next((j for j, (x, y) in enumerate(zip(a, b)) if x != y), min(len(a), len(b)))
+            ctx.violation("C17:midifile:healthy-track-disturbed",
+                          "written file: healthy tracks' messages differ from the run without the failing track at %s vs %s" % (a[k:k + 2], b[k:k + 2]), rp)
+
+
 def run(ctx):
     run_mode_cases(ctx)
+    midifile_containment_cases(ctx)
     sched_suite.run_suite(ctx, PROF, ctx.scale(2000, 120000), "c17", [time_oracle], nontrivial, signature_of)
     for i in range(ctx.scale(300, 12000)):
         containment_case(ctx, i)
